@@ -1,4 +1,61 @@
-import PV.Model.Tree.BST
-import PV.Model.Tree.AVL
-import PV.Model.Tree.RB
-/-! placeholder: theorems of C12 are being written -/
+import PV.Lemmas.Tree.BST
+import PV.Lemmas.Tree.AVL
+import PV.Lemmas.Tree.RB
+/-!
+# C12 — the three tree variants behave as a sorted map, for every operation sequence
+
+`cmp` is any comparator that is oriented and transitive (`Std.TransCmp`: a total preorder; keys the
+comparator calls equal are one key).  The outputs compared are everything the API shows: `nnodes`
+after insert/remove, the found flag, lookup results, the pairs visited by `foreach` up to any stop
+point, and the objects handed to the destroy notifiers (used again by C14).
+-/
+namespace PV.Tree
+open Std
+
+variable {κ ν : Type} {cmp : κ → κ → Ordering}
+
+/-- plain BST: every op sequence from the empty tree answers as the sorted map -/
+theorem bst_run_refines [TransCmp cmp] (ops : List (Op κ ν)) :
+    (bstRun cmp (.nil, 0) ops).2 = (specRun cmp [] ops).2 ∧
+    (bstRun cmp (.nil, 0) ops).1.1.toList = (specRun cmp [] ops).1 :=
+  bstRun_refines ops .nil 0 [] (by simp [BT.Ordered, BT.toList, SM.Sorted]) rfl rfl
+
+/-- AVL: additionally the C code never dereferences NULL (`avlRun` is `some`) -/
+theorem avl_run_refines [TransCmp cmp] (ops : List (Op κ ν)) :
+    ∃ s, avlRun cmp (.nil, 0) ops = some (s, (specRun cmp [] ops).2) ∧
+      s.1.toList = (specRun cmp [] ops).1 := by
+  obtain ⟨s, h1, h2, _⟩ := avlRun_refines (cmp := cmp) ops .nil 0 []
+    (by simp [BT.Ordered, AT.toBT, BT.toList, SM.Sorted]) (by simp [AT.Inv]) rfl rfl
+  exact ⟨s, h1, h2⟩
+
+/-- red-black -/
+theorem rb_run_refines [TransCmp cmp] (ops : List (Op κ ν)) :
+    ∃ s, rbRun cmp (.nil, 0) ops = some (s, (specRun cmp [] ops).2) ∧
+      s.1.toList = (specRun cmp [] ops).1 := by
+  obtain ⟨s, h1, h2, _⟩ := rbRun_refines (cmp := cmp) ops .nil 0 []
+    (by simp [BT.Ordered, RT.toBT, BT.toList, SM.Sorted]) (by simp [RT.Inv, RT.isBlack, RT.Bal]) rfl rfl
+  exact ⟨s, h1, h2⟩
+
+/-- the map the spec keeps is strictly ascending in the comparator, so `foreach` (which visits a
+    prefix of it: `specStep … (.each j)`) visits in strictly ascending key order, each pair once -/
+theorem spec_sorted [TransCmp cmp] (ops : List (Op κ ν)) (l : List (κ × ν)) (hs : SM.Sorted cmp l) :
+    SM.Sorted cmp (specRun cmp l ops).1 := by
+  induction ops generalizing l with
+  | nil => exact hs
+  | cons op ops ih =>
+    cases op with
+    | ins k v => exact ih _ (SM.sorted_insert hs k v)
+    | rem k => exact ih _ (SM.sorted_erase hs k)
+    | get k => exact ih _ hs
+    | each j => exact ih _ hs
+    | clear => exact ih _ (by simp [SM.Sorted])
+    | count => exact ih _ hs
+
+/-- the node count is the number of distinct keys -/
+theorem count_is_length (l : List (κ × ν)) : (specStep cmp l .count).2 = .num l.length := rfl
+
+/-! non-vacuity: `Nat` with `compare` is such a comparator; a concrete run -/
+example : (avlRun (κ := Nat) (ν := Nat) compare (.nil, 0) [.ins 2 20, .ins 1 10, .ins 3 30, .rem 2, .get 3, .each 1]).isSome := by
+  decide
+
+end PV.Tree
